@@ -1130,6 +1130,28 @@ pub fn run(rng: &mut R, out: &mut Out) {
         }
         one_scenario(out, rng, &tx, &ps, 8);
     }
+    // inputs WITHOUT an issuance (both amounts null) whose entropy / blinding-nonce fields are nevertheless non-zero
+    // in memory: they have no issuance (flag clear, nothing hashed), whatever the stray bytes say
+    for variant in 0..(if thorough { 120 } else { 9 }) {
+        let (mut tx, mut ps) = scenario_tx(rng);
+        if tx.input.is_empty() {
+            tx.input.push(gen::txin(rng, gen::InKind::Plain, false));
+            ps.push(gen::txout(rng, false));
+        }
+        let i = rng.gen_range(0..tx.input.len());
+        if tx.input[i].has_issuance() { continue; }
+        match variant % 3 {
+            0 => tx.input[i].asset_issuance.asset_entropy = gen::arr32(rng),
+            1 => tx.input[i].asset_issuance.asset_blinding_nonce = gen::tweak(rng),
+            _ => { tx.input[i].asset_issuance.asset_entropy = [0x11; 32]; tx.input[i].asset_issuance.asset_blinding_nonce = gen::tweak(rng); }
+        }
+        out.count("tx.stray_issuance_fields_without_issuance");
+        out.s("null_amounts_mean_no_issuance", !tx.input[i].has_issuance(), || format!("input {} of {}", i, hex(&serialize(&tx))));
+        if tx.input.len() <= 3 {
+            exhaustive_types(out, rng, &tx, &ps);
+        }
+        one_scenario(out, rng, &tx, &ps, 6);
+    }
     // variable-length items hashed into the digests (annex, tapscript leaf, script code) on both sides of each
     // compact-size boundary: the messages use the consensus length prefix
     {
